@@ -131,6 +131,12 @@ func (p *BlockParser) NextBlock() (*RootBlock, error) {
 		}
 		if hasText {
 			addLineText(lp)
+		} else {
+			// The line was consumed whole (a heading, a thematic break, a fence, an empty list item):
+			// it is not blank, so no enclosing block ends in a blank line any more.
+			for c := lp.container; c != nil; c = findParent(&lp.root, c) {
+				c.lastLineBlank = false
+			}
 		}
 		if next := p.makeRoot(lp.root.blockChildren); next != nil {
 			return next, nil
